@@ -688,12 +688,13 @@ Proof.
     + destruct c as [ra a|o' ra rb a b|r ra rb a b|neg ra x a|out qs]; cbn in Hm, Hb; try discriminate.
       * destruct o'; discriminate.
       * destruct r; discriminate.
-      * cbn [expected] in H. destruct (comp_values out qs); discriminate.
+      * cbn [expected] in H. destruct (comp_values out qs); [discriminate|].
+        destruct (comp_raises qs); discriminate.
 Qed.
 
-Lemma judge_case_sound : forall c os tag, judge_case c os = v_ok tag -> Forall (C14_spec c) os.
+Lemma judge_val_sound : forall c os tag, judge_val c os = v_ok tag -> Forall (C14_spec c) os.
 Proof.
-  intros c os tag H. unfold judge_case in H. destruct os as [|o0 os]; [discriminate|].
+  intros c os tag H. unfold judge_val in H. destruct os as [|o0 os]; [discriminate|].
   destruct (forallb (fun o => is_ok (check c o)) (o0 :: os)) eqn:Hall.
   - rewrite forallb_forall in Hall. apply Forall_forall. intros o Ho. specialize (Hall o Ho).
     destruct (check c o) as [t|w] eqn:Hc; [|discriminate]. exact (check_sound c o t Hc).
@@ -701,6 +702,13 @@ Proof.
     { induction l as [|o l IH]; cbn; [discriminate|]. destruct (check c o); [exact IH | discriminate]. }
     destruct (kf_class c); [destruct (faithful c) as [p|]|]; try (exact (Hfb _ H)).
     destruct (existsb (sobs_eqb p) (o0 :: os)); [discriminate | exact (Hfb _ H)].
+Qed.
+
+Lemma judge_case_sound : forall c os tag, judge_case c os = v_ok tag -> Forall (C14_spec c) os.
+Proof.
+  intros c os tag H. unfold judge_case in H.
+  destruct (expected c); try (apply (judge_val_sound c os tag H)).
+  destruct os as [|o os']; [discriminate|]. destruct (forallb is_err (o :: os')); discriminate.
 Qed.
 
 (* ================================================================== *)
@@ -1309,13 +1317,15 @@ Proof.
   rewrite Hp. destruct (veq a b); cbn [map]; rewrite IH; reflexivity.
 Qed.
 
-Lemma first_gen : forall x A, step_qual [[]] (QGen (PVar x) A) = map (fun v => [(x, v)]) A.
-Proof. intros. cbn. rewrite app_nil_r. apply gen_var_nil. Qed.
+Lemma first_gen : forall x A, step_qual [[]] (QGen (PVar x) A) = Some (map (fun v => [(x, v)]) A).
+Proof. intros. cbn [step_qual flat_map]. rewrite app_nil_r. unfold gen_matches. rewrite gen_var_nil. reflexivity. Qed.
+
+Ltac comp_start := unfold comp_values, run_quals; cbn [quals_ok run_from andb]; rewrite first_gen; cbn [quals_ok run_from andb].
 
 (* { x | x <- A } lists exactly A *)
 Lemma comp_identity : forall x A, comp_values (TVar x) [QGen (PVar x) A] = Some A.
 Proof.
-  intros x A. unfold comp_values, run_quals. cbn [quals_ok andb fold_left]. rewrite first_gen.
+  intros x A. comp_start.
   rewrite (map_opt_map_some _ _ _ _ _ (fun v => v)); [rewrite map_id; reflexivity|].
   intros a. cbn [eval_term]. apply lookup_hd.
 Qed.
@@ -1326,9 +1336,8 @@ Lemma comp_product : forall x y A B, String.eqb x y = false ->
   Some (flat_map (fun a => map (fun b => VTup [a; b]) B) A).
 Proof.
   intros x y A B Hxy. assert (Hyx : String.eqb y x = false) by (rewrite String.eqb_sym; exact Hxy).
-  unfold comp_values, run_quals. cbn [quals_ok andb fold_left]. rewrite first_gen.
-  cbn [step_qual]. rewrite flat_map_map'.
-  apply map_opt_flat_map. intros a. rewrite (gen_var_fresh x y a B Hyx).
+  comp_start. cbn [step_qual quals_ok run_from]. rewrite flat_map_map'.
+  apply map_opt_flat_map. intros a. unfold gen_matches. rewrite (gen_var_fresh x y a B Hyx).
   apply map_opt_map_some. intros b. cbn [eval_term lookup]. rewrite Hxy, String.eqb_refl, String.eqb_refl. reflexivity.
 Qed.
 
@@ -1337,9 +1346,8 @@ Lemma comp_join : forall x A B,
   comp_values (TVar x) [QGen (PVar x) A; QGen (PVar x) B] =
   Some (flat_map (fun a => map (fun _ => a) (filter (veq a) B)) A).
 Proof.
-  intros x A B. unfold comp_values, run_quals. cbn [quals_ok andb fold_left]. rewrite first_gen.
-  cbn [step_qual]. rewrite flat_map_map'.
-  apply map_opt_flat_map. intros a. rewrite (gen_var_bound x a B).
+  intros x A B. comp_start. cbn [step_qual quals_ok run_from]. rewrite flat_map_map'.
+  apply map_opt_flat_map. intros a. unfold gen_matches. rewrite (gen_var_bound x a B).
   apply map_opt_map_some. intros b. cbn [eval_term]. apply lookup_hd.
 Qed.
 
@@ -1362,17 +1370,407 @@ Lemma comp_filter_const : forall x o c A,
   comp_values (TVar x) [QGen (PVar x) A; QFilter o (TVar x) (TConst c)] =
   Some (filter (fun a => match eval_cmp o a c with Some true => true | _ => false end) A).
 Proof.
-  intros x o c A Hdef. unfold comp_values, run_quals. cbn [quals_ok fold_left]. rewrite first_gen.
+  intros x o c A Hdef. comp_start.
   assert (Hfe : forall a, filter_env o (TVar x) (TConst c) [(x, a)] = eval_cmp o a c).
   { intros a. unfold filter_env. cbn [eval_term]. rewrite lookup_hd. reflexivity. }
   assert (Hq : forallb (fun e => match filter_env o (TVar x) (TConst c) e with Some _ => true | None => false end)
                  (map (fun v => [(x, v)]) A) = true).
   { apply forallb_forall. intros e He. apply in_map_iff in He as (a & Hae & Ha). subst e. rewrite Hfe.
     specialize (Hdef a Ha). destruct (eval_cmp o a c); [reflexivity | congruence]. }
-  rewrite Hq. cbn [andb quals_ok step_qual]. rewrite filter_map'.
+  rewrite Hq. cbn [andb quals_ok step_qual run_from]. rewrite filter_map'.
   erewrite (filter_ext _ (fun a => match eval_cmp o a c with Some true => true | _ => false end)) by (intros a; rewrite Hfe; reflexivity).
   rewrite (map_opt_map_some _ _ _ _ _ (fun v => v)); [rewrite map_id; reflexivity|].
   intros a. cbn [eval_term]. apply lookup_hd.
 Qed.
 
 (* ================================================================== *)
+(* 10. dependent generators; the set-builder reading of every comprehension *)
+(* ================================================================== *)
+
+(* ---------- map_opt ---------- *)
+Lemma map_opt_cons : forall (A B : Type) (f : A -> option B) a l,
+  map_opt f (a :: l) = match f a, map_opt f l with Some b, Some bs => Some (b :: bs) | _, _ => None end.
+Proof. reflexivity. Qed.
+
+Lemma map_opt_all_some : forall (A B : Type) (f : A -> option B) (g : A -> B) l,
+  (forall a, In a l -> f a = Some (g a)) -> map_opt f l = Some (map g l).
+Proof.
+  intros A B f g l. induction l as [|a l IH]; intros H; [reflexivity|].
+  rewrite map_opt_cons, (H a (or_introl eq_refl)), IH; [reflexivity|]. intros b Hb. apply H. right. exact Hb.
+Qed.
+
+Lemma map_opt_In : forall (A B : Type) (f : A -> option B) l r, map_opt f l = Some r ->
+  forall b, In b r <-> exists a, In a l /\ f a = Some b.
+Proof.
+  intros A B f l. induction l as [|a l IH]; intros r H b.
+  - cbn in H. inversion H; subst. split; [intros [] | intros (a & [] & _)].
+  - rewrite map_opt_cons in H. destruct (f a) as [b0|] eqn:Hfa; [|discriminate].
+    destruct (map_opt f l) as [bs|]; [|discriminate]. inversion H; subst. specialize (IH bs eq_refl b). split.
+    + intros [Hb|Hb]; [subst; exists a; split; [left; reflexivity | exact Hfa]|].
+      apply IH in Hb as (a' & Ha' & Hf). exists a'. split; [right; exact Ha' | exact Hf].
+    + intros (a' & [Ha'|Ha'] & Hf); [subst; rewrite Hfa in Hf; inversion Hf; left; reflexivity|].
+      right. apply IH. exists a'. split; assumption.
+Qed.
+
+Lemma map_opt_None : forall (A B : Type) (f : A -> option B) l,
+  map_opt f l = None <-> exists a, In a l /\ f a = None.
+Proof.
+  intros A B f l. induction l as [|a l IH].
+  - cbn. split; [discriminate | intros (a & [] & _)].
+  - rewrite map_opt_cons. destruct (f a) as [b|] eqn:Hfa.
+    + destruct (map_opt f l) as [bs|].
+      * split; [discriminate|]. intros (a' & [Ha'|Ha'] & Hf); [subst; congruence|].
+        assert (Hbad : Some bs = None) by (apply (proj2 IH); exists a'; split; assumption). discriminate.
+      * split; [|reflexivity]. intros _. destruct (proj1 IH eq_refl) as (a' & Ha' & Hf).
+        exists a'. split; [right; exact Ha' | exact Hf].
+    + split; [|reflexivity]. intros _. exists a. split; [left; reflexivity | exact Hfa].
+Qed.
+
+Lemma in_filter_map : forall (A B : Type) (f : A -> option B) l b,
+  In b (filter_map f l) <-> exists a, In a l /\ f a = Some b.
+Proof.
+  intros A B f l b. induction l as [|a l IH]; cbn [filter_map].
+  - split; [intros [] | intros (a & [] & _)].
+  - destruct (f a) as [b0|] eqn:Hfa.
+    + split.
+      * intros [Hb|Hb]; [subst; exists a; split; [left; reflexivity | exact Hfa]|].
+        apply IH in Hb as (a' & Ha' & Hf). exists a'. split; [right; exact Ha' | exact Hf].
+      * intros (a' & [Ha'|Ha'] & Hf); [subst; rewrite Hfa in Hf; inversion Hf; left; reflexivity|].
+        right. apply IH. exists a'. split; assumption.
+    + rewrite IH. split.
+      * intros (a' & Ha' & Hf). exists a'. split; [right; exact Ha' | exact Hf].
+      * intros (a' & [Ha'|Ha'] & Hf); [subst; congruence|]. exists a'. split; assumption.
+Qed.
+
+(* ---------- a dependent generator visits the environments one by one ---------- *)
+Lemma gend_nil : forall p c, step_qual [] (QGenD p c) = Some [].
+Proof. reflexivity. Qed.
+
+Lemma gend_cons : forall p c e envs,
+  step_qual (e :: envs) (QGenD p c) =
+  match coll_elems e c, step_qual envs (QGenD p c) with
+  | Some l, Some r => Some (gen_matches p e l ++ r)
+  | _, _ => None
+  end.
+Proof.
+  intros p c e envs. cbn [step_qual]. rewrite map_opt_cons.
+  destruct (coll_elems e c) as [l|]; cbn [option_map]; [|reflexivity].
+  destruct (map_opt (fun e0 => option_map (gen_matches p e0) (coll_elems e0 c)) envs); reflexivity.
+Qed.
+
+(* the environments after a dependent generator are the concatenation, over the environments before
+   it, of the matches against the collection evaluated IN THAT environment *)
+Lemma gend_per_environment : forall p c envs (cs : env -> list val),
+  (forall e, In e envs -> coll_elems e c = Some (cs e)) ->
+  step_qual envs (QGenD p c) = Some (flat_map (fun e => gen_matches p e (cs e)) envs).
+Proof.
+  intros p c envs cs. induction envs as [|e envs IH]; intros H; [reflexivity|].
+  rewrite gend_cons, (H e (or_introl eq_refl)), IH; [reflexivity|]. intros e' He'. apply H. right. exact He'.
+Qed.
+
+(* ... and it raises an error exactly when the collection cannot be evaluated in one of them
+   (so: no environment left, no error) *)
+Lemma gend_error : forall p c envs,
+  step_qual envs (QGenD p c) = None <-> exists e, In e envs /\ coll_elems e c = None.
+Proof.
+  intros p c envs. cbn [step_qual]. split.
+  - intros H. destruct (map_opt _ envs) eqn:Hm; [discriminate|]. apply map_opt_None in Hm as (e & He & Hf).
+    exists e. split; [exact He|]. destruct (coll_elems e c); [discriminate | reflexivity].
+  - intros (e & He & Hc).
+    assert (Hm : map_opt (fun e0 => option_map (gen_matches p e0) (coll_elems e0 c)) envs = None).
+    { apply map_opt_None. exists e. split; [exact He|]. rewrite Hc. reflexivity. }
+    rewrite Hm. reflexivity.
+Qed.
+
+(* ---------- the mathematical (set-builder) reading: one choice per generator ---------- *)
+(* e -q-> e': the qualifier q, met with the bindings e, allows the bindings e' *)
+Inductive qstep : env -> qual -> env -> Prop :=
+| QS_gen : forall e p src v e', In v src -> pmatch p v e = Some e' -> qstep e (QGen p src) e'
+| QS_genD : forall e p c l v e',
+    coll_elems e c = Some l -> In v l -> pmatch p v e = Some e' -> qstep e (QGenD p c) e'
+| QS_filter : forall e o a b, filter_env o a b e = Some true -> qstep e (QFilter o a b) e.
+
+Inductive qsteps : env -> list qual -> env -> Prop :=
+| QSs_nil : forall e, qsteps e [] e
+| QSs_cons : forall e q e1 qs e', qstep e q e1 -> qsteps e1 qs e' -> qsteps e (q :: qs) e'.
+
+Lemma qsteps_app : forall qs1 qs2 e e1 e', qsteps e qs1 e1 -> qsteps e1 qs2 e' -> qsteps e (qs1 ++ qs2) e'.
+Proof.
+  induction qs1 as [|q qs1 IH]; intros qs2 e e1 e' H1 H2.
+  - inversion H1; subst. exact H2.
+  - inversion H1; subst. cbn [app]. econstructor; [eassumption|]. eapply IH; eassumption.
+Qed.
+
+Lemma step_spec : forall q envs envs', step_qual envs q = Some envs' ->
+  forall e', In e' envs' <-> exists e, In e envs /\ qstep e q e'.
+Proof.
+  intros [p src|p c|o a b] envs envs' H e'.
+  - cbn [step_qual] in H. inversion H; subst. rewrite in_flat_map. split.
+    + intros (e & He & Hm). apply in_filter_map in Hm as (v & Hv & Hp). exists e. split; [exact He|].
+      econstructor; eassumption.
+    + intros (e & He & Hq). inversion Hq; subst. exists e. split; [exact He|].
+      apply in_filter_map. eexists. split; eassumption.
+  - revert envs' H. induction envs as [|e0 envs IH]; intros envs' H.
+    + rewrite gend_nil in H. inversion H; subst. split; [intros [] | intros (e & [] & _)].
+    + rewrite gend_cons in H. destruct (coll_elems e0 c) as [l|] eqn:Hc; [|discriminate].
+      destruct (step_qual envs (QGenD p c)) as [r|]; [|discriminate]. inversion H; subst.
+      specialize (IH r eq_refl). rewrite in_app_iff, IH. split.
+      * intros [Hm|(e & He & Hq)].
+        -- apply in_filter_map in Hm as (v & Hv & Hp). exists e0. split; [left; reflexivity|].
+           econstructor; eassumption.
+        -- exists e. split; [right; exact He | exact Hq].
+      * intros (e & [He|He] & Hq).
+        -- subst e. left. inversion Hq; subst. apply in_filter_map.
+           match goal with H1 : coll_elems e0 c = Some ?l', H2 : coll_elems e0 c = Some l |- _ =>
+             rewrite H1 in H2; inversion H2; subst end.
+           eexists. split; eassumption.
+        -- right. exists e. split; assumption.
+  - cbn [step_qual] in H. inversion H; subst. rewrite filter_In. split.
+    + intros [He Hf]. exists e'. split; [exact He|]. constructor.
+      destruct (filter_env o a b e') as [[|]|]; try discriminate. reflexivity.
+    + intros (e & He & Hq). inversion Hq; subst. split; [exact He|].
+      match goal with H1 : filter_env o a b e' = Some true |- _ => rewrite H1 end. reflexivity.
+Qed.
+
+Lemma step_error : forall q envs,
+  step_qual envs q = None <-> exists p c e, q = QGenD p c /\ In e envs /\ coll_elems e c = None.
+Proof.
+  intros [p src|p c|o a b] envs.
+  - split; [discriminate | intros (? & ? & ? & Hq & _); discriminate].
+  - rewrite gend_error. split.
+    + intros (e & He & Hc). exists p, c, e. auto.
+    + intros (p' & c' & e & Hq & He & Hc). inversion Hq; subst. exists e. auto.
+  - split; [discriminate | intros (? & ? & ? & Hq & _); discriminate].
+Qed.
+
+(* the environments that the qualifier machinery produces are exactly those obtained by choosing, for
+   every generator in turn, an element of its collection AS EVALUATED UNDER THE CHOICES MADE SO FAR
+   that matches the pattern, and passing every filter *)
+Lemma run_spec : forall qs envs envs', run_from envs qs = Some envs' ->
+  forall e', In e' envs' <-> exists e, In e envs /\ qsteps e qs e'.
+Proof.
+  induction qs as [|q qs IH]; intros envs envs' H e'.
+  - cbn in H. inversion H; subst. split.
+    + intros He. exists e'. split; [exact He | constructor].
+    + intros (e & He & Hq). inversion Hq; subst. exact He.
+  - cbn [run_from] in H. destruct (step_qual envs q) as [envs1|] eqn:Hs; [|discriminate].
+    rewrite (IH envs1 envs' H e'). split.
+    + intros (e1 & He1 & Hq). apply (step_spec q envs envs1 Hs) in He1 as (e & He & Hq1).
+      exists e. split; [exact He|]. econstructor; eassumption.
+    + intros (e & He & Hq). inversion Hq as [|? ? e1 ? ? Hq1 Hq2]; subst. exists e1. split; [|exact Hq2].
+      apply (step_spec q envs envs1 Hs). exists e. split; assumption.
+Qed.
+
+(* the machinery raises an error exactly when a dependent generator's collection cannot be evaluated
+   in an environment reached through the qualifiers before it *)
+Lemma run_error : forall qs envs,
+  run_from envs qs = None <->
+  exists qs1 p c qs2 e0 e,
+    qs = qs1 ++ QGenD p c :: qs2 /\ In e0 envs /\ qsteps e0 qs1 e /\ coll_elems e c = None.
+Proof.
+  induction qs as [|q qs IH]; intros envs.
+  - cbn. split; [discriminate|]. intros (qs1 & p & c & qs2 & _ & _ & Hq & _). destruct qs1; discriminate.
+  - cbn [run_from]. destruct (step_qual envs q) as [envs1|] eqn:Hs.
+    + rewrite (IH envs1). split.
+      * intros (qs1 & p & c & qs2 & e1 & e & Hq & He1 & Hst & Hc).
+        apply (step_spec q envs envs1 Hs) in He1 as (e0 & He0 & Hq1).
+        exists (q :: qs1), p, c, qs2, e0, e. split; [cbn; rewrite Hq; reflexivity|].
+        split; [exact He0|]. split; [econstructor; eassumption | exact Hc].
+      * intros (qs1 & p & c & qs2 & e0 & e & Hq & He0 & Hst & Hc). destruct qs1 as [|q1 qs1].
+        -- cbn in Hq. inversion Hq; subst. inversion Hst; subst.
+           assert (Hn : step_qual envs (QGenD p c) = None) by (apply gend_error; exists e; auto). congruence.
+        -- cbn in Hq. inversion Hq; subst. inversion Hst as [|? ? e1 ? ? Hq1 Hq2]; subst.
+           exists qs1, p, c, qs2, e1, e. split; [reflexivity|].
+           split; [apply (step_spec q1 envs envs1 Hs); exists e0; split; assumption|]. split; assumption.
+    + split; [|reflexivity]. intros _. apply step_error in Hs as (p & c & e & Hq & He & Hc). subst q.
+      exists [], p, c, qs, e, e. split; [reflexivity|]. split; [exact He|]. split; [constructor | exact Hc].
+Qed.
+
+(* v belongs to { out | qs } read as mathematics *)
+Definition builder_reading (out : term) (qs : list qual) (v : val) : Prop :=
+  exists e w, qsteps [] qs e /\ eval_term e out = Some w /\ veq v w = true.
+
+Lemma comp_values_reading : forall out qs vs, comp_values out qs = Some vs ->
+  (forall v, inS v vs <-> builder_reading out qs v) /\
+  (forall w, In w vs -> exists e, qsteps [] qs e /\ eval_term e out = Some w).
+Proof.
+  intros out qs vs H. unfold comp_values in H. destruct (quals_ok [[]] qs); [|discriminate].
+  unfold run_quals in H. destruct (run_from [[]] qs) as [envs|] eqn:Hr; [|discriminate].
+  pose proof (map_opt_In _ _ _ _ _ H) as Hin. pose proof (run_spec qs [[]] envs Hr) as Hrs.
+  assert (Hw : forall w, In w vs <-> exists e, qsteps [] qs e /\ eval_term e out = Some w).
+  { intros w. rewrite Hin. split.
+    - intros (e & He & Hev). apply Hrs in He as (e0 & [He0|[]] & Hq). subst e0. exists e. split; assumption.
+    - intros (e & Hq & Hev). exists e. split; [|exact Hev]. apply Hrs. exists []. split; [left; reflexivity | exact Hq]. }
+  split.
+  - intros v. rewrite inS_iff. unfold builder_reading. split.
+    + intros (w & Hwi & Hv). apply Hw in Hwi as (e & Hq & Hev). exists e, w. auto.
+    + intros (e & w & Hq & Hev & Hv). exists w. split; [|exact Hv]. apply Hw. exists e. auto.
+  - intros w Hwi. apply Hw. exact Hwi.
+Qed.
+
+(* every comprehension that has a value — any number of generators of either sort, patterns, filters,
+   in any order — denotes a set: no two equal elements, exactly the elements of the set-builder reading,
+   each element the output term's value under reachable bindings, and a size that any other duplicate-free
+   listing of the same elements shares *)
+Lemma comp_expected_spec : forall out qs E, expected (CComp out qs) = ESet E ->
+  NoDupA veqP E /\
+  (forall v, inS v E <-> builder_reading out qs v) /\
+  (forall w, In w E -> exists e, qsteps [] qs e /\ eval_term e out = Some w) /\
+  (forall E', nodupb veq E' = true -> (forall v, inS v E' <-> builder_reading out qs v) ->
+              List.length E' = List.length E).
+Proof.
+  intros out qs E H. cbn [expected] in H. destruct (comp_values out qs) as [vs|] eqn:Hv.
+  - inversion H; subst. destruct (comp_values_reading out qs vs Hv) as [Hr Hw].
+    assert (HE : forall v, inS v (of_list veq vs) <-> builder_reading out qs v).
+    { intros v. unfold inS. rewrite vmemb_of_list. apply Hr. }
+    split; [apply vnodupb_NoDupA, vnodupb_of_list|]. split; [exact HE|]. split.
+    + intros w Hwi. apply Hw. eapply of_list_In. exact Hwi.
+    + intros E' Hn HE'. apply vsame_elems_length; [exact Hn | apply vnodupb_of_list|].
+      intros v. apply eq_true_iff_eq. fold (inS v E') (inS v (of_list veq vs)). rewrite HE, HE'. reflexivity.
+  - destruct (comp_raises qs); discriminate.
+Qed.
+
+(* the model predicts an error only for the reason above *)
+Lemma comp_error_spec : forall out qs, expected (CComp out qs) = EErr ->
+  exists qs1 p c qs2 e, qs = qs1 ++ QGenD p c :: qs2 /\ qsteps [] qs1 e /\ coll_elems e c = None.
+Proof.
+  intros out qs H. cbn [expected] in H. destruct (comp_values out qs); [discriminate|].
+  unfold comp_raises in H. destruct (quals_ok [[]] qs); cbn [andb] in H; [|discriminate].
+  unfold run_quals in H. destruct (run_from [[]] qs) eqn:Hr; [discriminate|].
+  apply run_error in Hr as (qs1 & p & c & qs2 & e0 & e & Hq & [He0|[]] & Hst & Hc). subst e0.
+  exists qs1, p, c, qs2, e. auto.
+Qed.
+
+(* ---------- the reading in which the collection is evaluated once per generator ---------- *)
+(* (in the first environment, reused for all the others) is a different function *)
+Definition step_hoisted (envs : list env) (q : qual) : option (list env) :=
+  match q with
+  | QGenD p c =>
+      match envs with
+      | [] => Some []
+      | e0 :: _ => match coll_elems e0 c with
+                   | Some l => Some (flat_map (fun e => gen_matches p e l) envs)
+                   | None => None
+                   end
+      end
+  | _ => step_qual envs q
+  end.
+
+Fixpoint run_hoisted (envs : list env) (qs : list qual) : option (list env) :=
+  match qs with
+  | [] => Some envs
+  | q :: r => match step_hoisted envs q with Some envs' => run_hoisted envs' r | None => None end
+  end.
+
+Definition comp_values_hoisted (out : term) (qs : list qual) : option (list val) :=
+  match run_hoisted [[]] qs with Some envs => map_opt (fun e => eval_term e out) envs | None => None end.
+
+(* the two agree when the collection has the same elements in every environment (every generated
+   comprehension before the dependent shapes were added) ... *)
+Lemma hoisted_agrees_on_constant_collections : forall p c envs,
+  (forall e e', In e envs -> In e' envs -> coll_elems e c = coll_elems e' c) ->
+  step_hoisted envs (QGenD p c) = step_qual envs (QGenD p c).
+Proof.
+  intros p c [|e0 envs] H; [reflexivity|]. cbn [step_hoisted].
+  destruct (coll_elems e0 c) as [l|] eqn:Hc.
+  - symmetry. apply (gend_per_environment p c (e0 :: envs) (fun _ => l)).
+    intros e He. rewrite <- Hc. apply H; [exact He | left; reflexivity].
+  - symmetry. apply gend_error. exists e0. split; [left; reflexivity | exact Hc].
+Qed.
+
+(* ... and differ on { y | x <- {{1,2},{3,4}}, y <- x }: 3 is an element, the hoisted reading loses it *)
+Definition u8 (z : Z) : val := VInt "u8" z.
+Definition wit_flatten : case :=
+  CComp (TVar "y") [QGen (PVar "x") [annot (VSet "" 0 [u8 1; u8 2]); annot (VSet "" 0 [u8 3; u8 4])];
+                    QGenD (PVar "y") (KVar "x")].
+
+Lemma hoisting_refuted :
+  wf_case wit_flatten = true /\
+  expected wit_flatten = ESet [u8 1; u8 2; u8 3; u8 4] /\
+  exists out qs vs vs', wit_flatten = CComp out qs /\
+    comp_values out qs = Some vs /\ comp_values_hoisted out qs = Some vs' /\
+    inS (u8 3) vs /\ ~ inS (u8 3) vs'.
+Proof.
+  split; [vm_compute; reflexivity|]. split; [vm_compute; reflexivity|].
+  eexists _, _, _, _. split; [reflexivity|]. split; [vm_compute; reflexivity|].
+  split; [vm_compute; reflexivity|]. split; [vm_compute; reflexivity|]. vm_compute. discriminate.
+Qed.
+
+(* ---------- the dependent shapes, for all lists ---------- *)
+Definition elems_of (v : val) : list val := match v with VSet _ _ l => l | _ => [] end.
+
+Lemma gen_matches_fresh : forall x y a l, String.eqb y x = false ->
+  gen_matches (PVar y) [(x, a)] l = map (fun b => [(y, b); (x, a)]) l.
+Proof. intros. unfold gen_matches. apply gen_var_fresh. assumption. Qed.
+
+(* { y | x <- S, y <- x } over a list of sets lists the elements of its elements: the union of S *)
+Lemma comp_flatten : forall x y S, String.eqb x y = false ->
+  (forall s, In s S -> exists k n l, s = VSet k n l) ->
+  comp_values (TVar y) [QGen (PVar x) S; QGenD (PVar y) (KVar x)] = Some (flat_map elems_of S).
+Proof.
+  intros x y S Hxy HS. assert (Hyx : String.eqb y x = false) by (rewrite String.eqb_sym; exact Hxy).
+  comp_start.
+  assert (Hstep : step_qual (map (fun v => [(x, v)]) S) (QGenD (PVar y) (KVar x)) =
+                  Some (flat_map (fun e => gen_matches (PVar y) e (match lookup x e with Some s => elems_of s | None => [] end))
+                                 (map (fun v => [(x, v)]) S))).
+  { apply gend_per_environment. intros e He. apply in_map_iff in He as (s & Hse & Hs). subst e.
+    destruct (HS s Hs) as (k & n & l & Heq). subst s. cbn [coll_elems]. rewrite lookup_hd. reflexivity. }
+  rewrite Hstep. cbn [quals_ok run_from]. rewrite flat_map_map'.
+  apply map_opt_flat_map. intros s. rewrite lookup_hd, (gen_matches_fresh x y s _ Hyx).
+  rewrite (map_opt_map_some _ _ _ _ _ (fun v => v)); [rewrite map_id; reflexivity|].
+  intros b. cbn [eval_term]. apply lookup_hd.
+Qed.
+
+Lemma comp_flatten_is_union : forall S v,
+  inS v (flat_map elems_of S) <-> exists s, In s S /\ inS v (elems_of s).
+Proof.
+  intros S v. rewrite inS_iff. split.
+  - intros (w & Hw & Hv). apply in_flat_map in Hw as (s & Hs & Hw). exists s. split; [exact Hs|].
+    apply inS_iff. exists w. auto.
+  - intros (s & Hs & Hv). apply inS_iff in Hv as (w & Hw & Hv). exists w. split; [|exact Hv].
+    apply in_flat_map. exists s. auto.
+Qed.
+
+(* { y | x <- A, y <- {x, c} }: for every a of A the set built from a and c, in this order *)
+Lemma comp_dep_literal : forall x y c A, String.eqb x y = false ->
+  (forall a, In a A -> kind_text c = kind_text a) ->
+  comp_values (TVar y) [QGen (PVar x) A; QGenD (PVar y) (KSet [TVar x; TConst c])] =
+  Some (flat_map (fun a => of_list veq [a; c]) A).
+Proof.
+  intros x y c A Hxy Hk. assert (Hyx : String.eqb y x = false) by (rewrite String.eqb_sym; exact Hxy).
+  comp_start.
+  assert (Hstep : step_qual (map (fun v => [(x, v)]) A) (QGenD (PVar y) (KSet [TVar x; TConst c])) =
+                  Some (flat_map (fun e => gen_matches (PVar y) e
+                                   (match lookup x e with Some a => of_list veq [a; c] | None => [] end))
+                                 (map (fun v => [(x, v)]) A))).
+  { apply gend_per_environment. intros e He. apply in_map_iff in He as (a & Hae & Ha). subst e.
+    cbn [coll_elems map_opt eval_term]. rewrite lookup_hd. cbn [uniform forallb].
+    rewrite (Hk a Ha), String.eqb_refl. reflexivity. }
+  rewrite Hstep. cbn [quals_ok run_from]. rewrite flat_map_map'.
+  apply map_opt_flat_map. intros a. rewrite lookup_hd, (gen_matches_fresh x y a _ Hyx).
+  rewrite (map_opt_map_some _ _ _ _ _ (fun v => v)); [rewrite map_id; reflexivity|].
+  intros b. cbn [eval_term]. apply lookup_hd.
+Qed.
+
+Lemma flat_map_single : forall (A B : Type) (g : A -> B) l, flat_map (fun a => [g a]) l = map g l.
+Proof. intros A B g l. induction l as [|a l IH]; [reflexivity|]. cbn. rewrite IH. reflexivity. Qed.
+
+(* { (x,y) | x <- A, y <- {x} } is the diagonal of A *)
+Lemma comp_dep_diagonal : forall x y A, String.eqb x y = false ->
+  comp_values (TPair (TVar x) (TVar y)) [QGen (PVar x) A; QGenD (PVar y) (KSet [TVar x])] =
+  Some (map (fun a => VTup [a; a]) A).
+Proof.
+  intros x y A Hxy. assert (Hyx : String.eqb y x = false) by (rewrite String.eqb_sym; exact Hxy).
+  comp_start.
+  assert (Hstep : step_qual (map (fun v => [(x, v)]) A) (QGenD (PVar y) (KSet [TVar x])) =
+                  Some (flat_map (fun e => gen_matches (PVar y) e
+                                   (match lookup x e with Some a => [a] | None => [] end))
+                                 (map (fun v => [(x, v)]) A))).
+  { apply gend_per_environment. intros e He. apply in_map_iff in He as (a & Hae & Ha). subst e.
+    cbn [coll_elems map_opt eval_term]. rewrite lookup_hd. reflexivity. }
+  rewrite Hstep. cbn [quals_ok run_from]. rewrite flat_map_map'.
+  rewrite (map_opt_flat_map _ _ _ _ _ (fun a => [VTup [a; a]])).
+  - rewrite flat_map_single. reflexivity.
+  - intros a. rewrite lookup_hd, (gen_matches_fresh x y a _ Hyx). cbn [map map_opt eval_term lookup].
+    rewrite Hxy, !String.eqb_refl. reflexivity.
+Qed.
